@@ -908,6 +908,8 @@ func replay(site, witness string) {
 			checkADTS(aac.ADTSHeader{ID: byte(a), ObjectType: byte(b), SamplingFrequencyIndex: byte(c), ChannelConfig: byte(d),
 				HeaderLength: byte(e), PayloadLength: uint16(f), BufferFullness: uint16(g)}, hx.UnHex(junk), hx.UnHex(rest))
 		}
+	case strings.HasPrefix(witness, "esds="):
+		replayEsds(hx.UnHex(strings.TrimPrefix(witness, "esds=")))
 	case strings.HasPrefix(witness, "B:"):
 		checkHistory(parseOps(witness))
 	case strings.HasPrefix(witness, "asc-stream="):
